@@ -656,6 +656,9 @@ async def _execute(loop, program, observe=None):
                 srv._stream_control._maximum_stream_id = cfg['idmask']
         if connect_scripts and index < len(connect_scripts) and connect_scripts[index]:
             c.transport['c'].connect_script = tuple(connect_scripts[index])
+        ct = cfg.get('close_ticks')
+        if ct and index < len(ct) and ct[index]:
+            c.transport['c'].close_ticks = ct[index]  # this transport's close() suspends for that many loop iterations
         return c
 
     conn.set_auto(cfg.get('regime', 'pumped') == 'pumped')
